@@ -120,7 +120,8 @@ CLAIMED = {
         "reference (disagreement = exit 2).",
    note="Trusted: TLC, the annotation materialiser (exec'd signatures). Forward references, numpy dtypes and user generics "
         "are outside the grammar."
-        " Also: consumers with several array inputs (NetEdges, LawViaLocal, LawEdgewise; 43 sibling shapes).",
+        " Also: consumers with several array inputs (NetEdges, LawViaLocal, LawEdgewise; 43 sibling shapes)."
+        " Also: other ways a parameter gets its value (signature / PipeFunc default / bound): LawDefaultKeepsEdges, LawBoundCutsOwnEdge.",
    technique="TLA+ subtype relation checked by TLC; universe export compared against is_type_compatible and Pipeline()"),
  "C20": dict(
    category="model_checking", design_ref="6 C20",
@@ -215,7 +216,8 @@ CLAIMED = {
         "pytest.raises examples of the repository calibrate the clauses; random larger mutants are judged by TLC trace "
         "validation.",
    note="Exception class is not compared (the property says 'raises'); a different pipeline continuing a folder may be refused."
-        " Also: call-style entries (call/run/func) for any requested output (ConstructionVerdictIsEntryBlind), ill-formed call mutants, cyclic examples.",
+        " Also: call-style entries (call/run/func) for any requested output (ConstructionVerdictIsEntryBlind), ill-formed call mutants, cyclic examples."
+        " Also: mutants on the sibling output of tuple producers (LawAxesByRole) and ordered default pairs incl. None / 0 (LawDefaultsSymmetric).",
    technique="TLA+ validity clauses + prepare state machine checked by TLC; mutant universe export compared against the code"),
  "C07": dict(
    category="model_checking", design_ref="6 C07",
@@ -259,7 +261,8 @@ CLAIMED = {
         "every single edge/node mutation of the reference graph. Every description x output x cut x listing order is built "
         "with lazy=True, with and without construct_dag, next to an eager twin; TLC validates the recorded histories "
         "(TracePipelineLazy.tla); random DAGs are added.",
-   note="Interleaved evaluation of several live handles and lazy + user caches are not driven.",
+   note="Interleaved evaluation of several live handles and lazy + user caches are not driven."
+        " Also: failing functions (fault plans), construct_dag blocks left by exceptions (BlockLeft), pipeline-owned caches inside a block (OwnCacheInBlock).",
    technique="TLA+ lazy-evaluation state machine checked by TLC; universe export; TLC trace validation"),
  "C10": dict(
    category="model_checking", design_ref="6 C10",
